@@ -4,6 +4,9 @@ run the checks of every property anchored in a touched file, undo.  A check must
 usage: tools/run_refactors.py [id-prefix ...]"""
 import json, os, re, subprocess, sys
 VERIF = os.path.dirname(os.path.dirname(os.path.abspath(__file__)))
+REPO = os.environ.get("VERIF_REPO", "/repo")
+if REPO != "/repo":
+    os.environ["PYTHONPATH"] = os.path.join(REPO, "src")   # the checks import the library from the scratch copy
 BY_FILE = {
     "dec/dec.py": ["C01", "C02", "C03", "C04", "C05", "C06", "C07", "C08", "C09", "C10", "C16"],
     "data/decfile.lark": ["C01", "C02", "C05", "C06", "C07"],
@@ -20,7 +23,7 @@ args = [a for a in sys.argv[1:] if not a.startswith("--")]
 ids = sorted(d for d in os.listdir(os.path.join(VERIF, "seeded")) if d.startswith("refactor_"))
 if args:
     ids = [i for i in ids if any(i.startswith(a) or i.startswith("refactor_" + a) for a in args)]
-assert subprocess.run(["git", "-C", "/repo", "diff", "--quiet"]).returncode == 0, "/repo not clean"
+assert subprocess.run(["git", "-C", REPO, "diff", "--quiet"]).returncode == 0, "/repo not clean"
 rows = []
 for i in ids:
     d = os.path.join(VERIF, "seeded", i)
@@ -34,7 +37,7 @@ for i in ids:
     checks = sorted(set(checks))
     meta_path = os.path.join(d, "meta.json")
     meta = json.load(open(meta_path)) if os.path.exists(meta_path) else {}
-    r = subprocess.run(["git", "-C", "/repo", "apply", os.path.join(d, "patch.diff")])
+    r = subprocess.run(["git", "-C", REPO, "apply", os.path.join(d, "patch.diff")])
     if r.returncode != 0:
         rows.append((i, "patch does not apply")); continue
     results = {}
@@ -46,7 +49,7 @@ for i in ids:
             results[c] = {"exit": p.returncode, "violation_line": viol[0] if viol else None, "first": first[0][:400] if first else None,
                           "tail": p.stdout.splitlines()[-3:] if p.returncode == 2 else None}
     finally:
-        subprocess.run(["git", "-C", "/repo", "checkout", "--", "."])
+        subprocess.run(["git", "-C", REPO, "checkout", "--", "."])
     meta.update({"id": i, "kind": "behaviour-preserving rewrite", "touched": touched, "checks_run": checks, "results_quick": results,
                  "silent": all(v["exit"] == 0 for v in results.values())})
     json.dump(meta, open(meta_path, "w"), indent=1)
